@@ -15,6 +15,7 @@ over the key with literal arms, `==`/`matches!` tests, and membership tests agai
 resolved (`TABLE.contains(&key)`, `TABLE.iter().find(|(n, _)| *n == key)`, `TABLE.iter().any(..)`), so that a table-driven
 dispatch and a one-arm-per-literal dispatch are the same function to the rules.  Several specs can be combined."""
 import copy
+import re
 
 from . import vt
 
@@ -327,11 +328,69 @@ def cond_truth(c, specs, depth=0):
     return None
 
 
-def _take_arms(arms, sp, specs):
+def _pat_alts(pat):
+    """Top-level alternatives of a pattern text: [(variant name or '_' or binding, nested string literal or None)]."""
+    alts, depth, cur, in_str = [], 0, '', False
+    for ch in str(pat):
+        if ch == '"':
+            in_str = not in_str
+        if not in_str:
+            if ch in '([{':
+                depth += 1
+            elif ch in ')]}':
+                depth -= 1
+            elif ch == '|' and depth == 0:
+                alts.append(cur)
+                cur = ''
+                continue
+        cur += ch
+    alts.append(cur)
+    out = []
+    for a in alts:
+        a = a.strip()
+        m = re.fullmatch(r'([\w\s:]+?)\s*\(\s*"((?:[^"\\]|\\.)*)"\s*\)', a)
+        if m:
+            out.append((m.group(1).replace(' ', '').split('::')[-1], m.group(2)))
+        else:
+            out.append((a.split('(')[0].replace(' ', '').split('::')[-1], None))
+    return out
+
+
+def _nested_literal_verdict(a, sp, specs, scrut):
+    """For arms such as `Some("snake_case") => …` over an Option scrutinee: True (taken for sure) / False (not taken) / None
+    (pattern has no nested string literal: the ordinary test applies).  The literal is compared with the KeySpec whose key is
+    the payload of this scrutinee."""
+    pat = str(a.get('pat', ''))
+    if '"' not in pat or _lits(a.get('variants', [])):
+        return None
+    want = getattr(sp, 'want', None) or getattr(sp, 'variant', None)
+    ks = next((x for x in specs if isinstance(x, KeySpec) and x.is_key({'k': 'payload', 'of': scrut, 'variant': 'Some'})), None)
+    verdict = False
+    for name, lit in _pat_alts(pat):
+        if name == '_' or (name[:1].islower() and lit is None):
+            return True
+        if name != want:
+            continue
+        if lit is None:
+            return True
+        if ks is None:
+            verdict = None if verdict is False else verdict
+        elif ks.name == lit:
+            return True
+    return verdict if verdict is False else 'maybe'
+
+
+def _take_arms(arms, sp, specs, scrut=None):
     """The arms of a match over the spec's scrutinee that can be taken, in order (several when an arm guard is undecided)."""
     taken = []
     for a in arms:
-        if not sp.arm_hits(a):
+        nv = _nested_literal_verdict(a, sp, specs, scrut) if scrut is not None else None
+        if nv is False:
+            continue
+        if nv == 'maybe':
+            taken.append(a)
+            continue
+        if nv is None and not sp.arm_hits(a):
             continue
         g = a.get('guard')
         if g is None:
@@ -367,7 +426,7 @@ def evs(v, specs, depth=0):
         for sp in specs:
             if sp.is_scrut(v.get('scrut')):
                 outs = []
-                for a in _take_arms(v.get('arms', []), sp, specs):
+                for a in _take_arms(v.get('arms', []), sp, specs, v.get('scrut')):
                     outs += evs(a.get('v'), specs, depth + 1)
                 return outs[:24] or [{'k': 'never'}]
         # match on an evaluated Option/Result
